@@ -287,16 +287,35 @@ def sorted_before_use(mod, fnode, par, node):
     """The order-exposing expression `node` is bound to a local name that is put into a canonical order before anything else
     looks at it:  xs = list(s); xs.sort()   /   xs = [..for x in s]; xs = sorted(xs).
     -> ('sorted', key node or None, sort call) | ('later', ...) when a sort exists but is not the first use | None."""
-    st = par.get(id(node))
-    if not (isinstance(st, (ast.Assign, ast.AnnAssign)) and getattr(st, "value", None) is node):
-        return None
-    tgt = st.targets[0] if isinstance(st, ast.Assign) and len(st.targets) == 1 else getattr(st, "target", None)
-    if not isinstance(tgt, ast.Name):
-        return None
-    name = tgt.id
+    if isinstance(node, tuple):
+        st, name = node            # (statement after which the sequence `name` is complete, name)
+    else:
+        st = par.get(id(node))
+        if not (isinstance(st, (ast.Assign, ast.AnnAssign)) and getattr(st, "value", None) is node):
+            return None
+        tgt = st.targets[0] if isinstance(st, ast.Assign) and len(st.targets) == 1 else getattr(st, "target", None)
+        if not isinstance(tgt, ast.Name):
+            return None
+        name = tgt.id
     following, in_loop = _following_statements(fnode, par, st)
     def mentions(s_):
-        return any(isinstance(x, ast.Name) and x.id == name for x in ast.walk(s_))
+        """The statement looks at the sequence in an order-sensitive way (log messages and len()/any()/set()... of it do not)."""
+        for x in ast.walk(s_):
+            if isinstance(x, ast.Name) and x.id == name:
+                up, ok_ = par.get(id(x)), False
+                if isinstance(up, ast.Call) and isinstance(up.func, ast.Name) and up.func.id in ORDER_SAFE_CONSUMERS - KEYED_CONSUMERS:
+                    ok_ = True
+                while up is not None and up is not s_ and not ok_:
+                    if isinstance(up, ast.Call) and isinstance(up.func, ast.Attribute) and isinstance(up.func.value, ast.Name) \
+                            and up.func.value.id in ("logger", "logging", "log"):
+                        ok_ = True
+                    up = par.get(id(up))
+                if isinstance(s_, ast.Expr) and isinstance(s_.value, ast.Call) and isinstance(s_.value.func, ast.Attribute) \
+                        and isinstance(s_.value.func.value, ast.Name) and s_.value.func.value.id in ("logger", "logging", "log"):
+                    ok_ = True
+                if not ok_:
+                    return True
+        return False
     def sort_call(s_):
         if isinstance(s_, ast.Expr) and isinstance(s_.value, ast.Call) and isinstance(s_.value.func, ast.Attribute) and s_.value.func.attr == "sort" \
                 and isinstance(s_.value.func.value, ast.Name) and s_.value.func.value.id == name:
@@ -377,8 +396,19 @@ def order_sites(mod, q, fnode, summ=None, keyed_out=None):
                 if is_u(g.iter, known):
                     add(n, "comprehension over <set>")
         elif isinstance(n, ast.For) and is_u(n.iter, known):
-            cb = _commutative_body(n.body, fnode, n)
-            if cb is not True:
+            collected = set()
+            cb = _commutative_body(n.body, fnode, n, collected)
+            if cb is True and collected:
+                # the loop only collects into local lists: fine when each of them is sorted before anything else looks at it
+                for lst in sorted(collected):
+                    sb = sorted_before_use(mod, fnode, par, (n, lst))
+                    if sb is not None and sb[0] == "sorted":
+                        st, txt = key_injective(sb[1], mod)
+                        if keyed_out is not None:
+                            keyed_out.append((sb[2], st, f"list {lst} filled in <set> order, put in order by {ast.unparse(sb[2])[:60]} before any other use: {txt}", sb[1]))
+                    else:
+                        out.append((n, f"for-loop over <set> appends to {lst}" + (" (sorted later, but not before every other use)" if sb else ""), sb is None))
+            elif cb is not True:
                 # an unrecognised loop body is not a proof of order dependence: the native replayer decides
                 out.append((n, "for-loop over <set> whose body is not recognised as order-independent" + (f" ({cb})" if cb else ""), False))
         elif isinstance(n, ast.Starred) and is_u(n.value, known):
@@ -402,9 +432,14 @@ def order_sites(mod, q, fnode, summ=None, keyed_out=None):
 COMMUTATIVE_METHODS = {"add", "discard", "update", "setdefault", "debug", "info", "warning", "error", "exception", "log"}
 
 
-def _commutative_body(stmts, fnode=None, loop=None):
-    """True when executing the body for the elements in any order gives the same final state; otherwise a short reason."""
+def _commutative_body(stmts, fnode=None, loop=None, collected=None):
+    """True when executing the body for the elements in any order gives the same final state; otherwise a short reason.
+    `collected` (a set) receives the names of local lists the body appends to: their order is the iteration order."""
     for s in stmts:
+        if collected is not None and isinstance(s, ast.Expr) and isinstance(s.value, ast.Call) and isinstance(s.value.func, ast.Attribute) \
+                and s.value.func.attr in ("append", "extend") and isinstance(s.value.func.value, ast.Name):
+            collected.add(s.value.func.value.id)
+            continue
         # per-iteration temporary: a plain name assigned in the body and never read outside the loop
         if isinstance(s, (ast.Assign, ast.AnnAssign)) and fnode is not None:
             tg = s.targets[0] if isinstance(s, ast.Assign) and len(s.targets) == 1 else getattr(s, "target", None)
@@ -417,7 +452,7 @@ def _commutative_body(stmts, fnode=None, loop=None):
         if isinstance(s, ast.Expr) and isinstance(s.value, ast.Constant):
             continue
         if isinstance(s, ast.If):
-            a_, b_ = _commutative_body(s.body, fnode, loop), _commutative_body(s.orelse, fnode, loop)
+            a_, b_ = _commutative_body(s.body, fnode, loop, collected), _commutative_body(s.orelse, fnode, loop, collected)
             if a_ is True and b_ is True:
                 continue
             return a_ if a_ is not True else b_
@@ -838,11 +873,35 @@ def contracts(reg):
 
 
 def _executor():
-    from contracts.C05 import EXECUTOR as E
-    return E
+    import z3
+    from contracts import c05spec as sp
+    from contracts.c05exec import PTok, SerExecutor
+
+    class C06Executor(SerExecutor):
+        """C05's executor + the position-independent readers of io.BytesIO (assumed library model: `getvalue()` / `getbuffer()`
+        return the whole payload whatever the cursor is and do not move it)."""
+
+        def pv_method(self, st, obj, name, args, kwargs, node):
+            if name in ("getvalue", "getbuffer") and not args:
+                V = sp.V
+                s2 = self.fork_raise(st, sp.norm(z3.Not(V.is_BytesIO(obj.t))), "AttributeError")
+                return [] if s2 is None else [(s2, PTok("bin", sp.norm(V.iop(obj.t))))]
+            return super().pv_method(st, obj, name, args, kwargs, node)
+
+    return C06Executor
 
 
 EXECUTOR = _executor()
+
+
+def post_report(c, rep):
+    """A refutation of the deductive obligations is a counterexample only when the whole path is modelled: if the executor had to
+    havoc a call it has no model for (EXC-ANY site), `refuted` means "not proved with this model" -> unknown, the replayer decides."""
+    if getattr(rep, "exc_any_sites", 0):
+        for o in rep.obligations:
+            if o.get("status") == "refuted":
+                o["status"] = "unknown"
+                o["reason"] = ((o.get("reason") or "") + f"; path contains {rep.exc_any_sites} unmodelled call(s): not a definite counterexample").strip("; ")
 
 
 TRUSTED = ["third-party parsers are deterministic functions of their input bytes", "PY-HASHSEED: dict iteration = insertion order; set iteration order arbitrary per process"]
